@@ -33,15 +33,19 @@ Inductive case :=
 
 (* uchar (s, t) files: the implementation's TexCoord values are float64(b) * (1/255) (vector2.DivByConstant); they are
    translated to the division table the model and [describe] use (Formats/PlyReadV2.v).  Not when the face element has
-   a texcoord list: then TexCoord holds the per-corner coordinates of the faces. *)
+   a texcoord list AND at least one face: then TexCoord holds the per-corner coordinates of the faces. *)
 Definition has_face_tex (a : absfile) : bool :=
   match a_fprops a with
   | Some fps => existsb (fun p : sty * sty * string => seqb (snd p) "texcoord") fps
   | None => false
   end.
+(* the face element's texture coordinates replace TexCoord only when there is at least one face (MeshReader.Read:
+   len(uvs) > 0); with an empty face list the TexCoord attribute is still the vertex element's (s, t) pair *)
+Definition face_tex_applied (a : absfile) : bool :=
+  has_face_tex a && match a_faces a with [] => false | _ => true end.
 Definition adjust (a : absfile) (o : outcome) : outcome :=
   match o with
-  | OMesh m => if uchar_st (a_vprops a) && negb (has_face_tex a) then OMesh (st_to_div m) else o
+  | OMesh m => if uchar_st (a_vprops a) && negb (face_tex_applied a) then OMesh (st_to_div m) else o
   | _ => o
   end.
 
